@@ -119,7 +119,7 @@ struct Runner {
 		for (int i = 0; i < STATE_COUNT; ++i) {
 			if (m.isActive   (static_cast<StateID>(i))) a |= 1ull << i;
 			if (m.isResumable(static_cast<StateID>(i))) r |= 1ull << i;
-			const auto sub = m.activeSubState(static_cast<StateID>(i));
+			const auto sub = STATES[i].width > 0 ? m.activeSubState(static_cast<StateID>(i)) : hfsm2::INVALID_PRONG;
 			if (i) subs += ",";
 			subs += (sub == hfsm2::INVALID_PRONG ? std::string("-") : std::to_string(static_cast<int>(sub)));
 		}
